@@ -4,7 +4,7 @@
 (* SELF-COMPOSITION, and emission of the expected outcome of every run for *)
 (* replay into the implementation (spec -> impl).                          *)
 (*                                                                         *)
-(* One behaviour per element of ProgUniverse!Universe.  The state holds,   *)
+(* One behaviour per element of ProgUniverse!UniverseSeq.  The state holds,   *)
 (* for ONE (program, environment), one copy of the machine per             *)
 (* configuration; every Next step advances every unfinished copy by one    *)
 (* Interp!Step (lockstep).                                                 *)
@@ -85,7 +85,7 @@ StepW(w) ==
 
 ---------------------------------------------------------------------------
 (* phase 2: budgeted runs derived from the finished base / new runs *)
-Ok(w) == w.m.status = "ok"
+IsOk(w) == w.m.status = "ok"
 Around(C) == << NSub(C, << 1 >>), C, NAddI(C, 1) >>
 
 RECURSIVE Dedup(_, _)
@@ -96,10 +96,10 @@ Dedup(s, seen) == IF s = << >> THEN << >>
 BudgetCfgs(mm) ==
   LET b == mm[IBase]
       n == mm[INew]
-      bb == IF Ok(b) THEN Around(b.m.cost) ELSE << >>
-      nb == IF Ok(n) THEN Around(n.m.cost) ELSE << >>
+      bb == IF IsOk(b) THEN Around(b.m.cost) ELSE << >>
+      nb == IF IsOk(n) THEN Around(n.m.cost) ELSE << >>
       \* every intermediate cost p of the base run with 0 < p < C - 1 (C-1, C, C+1 are there already)
-      pp == IF Ok(b) /\ Partial
+      pp == IF IsOk(b) /\ Partial
             THEN Dedup(SelectSeq(b.pc, LAMBDA p : p # << >> /\ NLt(NAddI(p, 1), b.m.cost)), {})
             ELSE << >>
   IN  [i \in 1..Len(bb) |-> Cfg("bb", "chia", << >>, bb[i], IBase)]
@@ -107,16 +107,17 @@ BudgetCfgs(mm) ==
         \o [i \in 1..Len(pp) |-> Cfg("bp", "chia", << >>, pp[i], IBase)]
 
 NextMs(mm, ph, x) ==
-  IF ~AllDone(mm) THEN [i \in 1..Len(mm) |-> IF Running(mm[i]) THEN StepW(mm[i]) ELSE mm[i]]
+  IF ph = 0 THEN [i \in 1..Len(Configs1) |-> Wrap(x, Configs1[i])]
+  ELSE IF ~AllDone(mm) THEN [i \in 1..Len(mm) |-> IF Running(mm[i]) THEN StepW(mm[i]) ELSE mm[i]]
   ELSE \* ph = 1 and everything finished: add the budgeted runs
        LET cs == BudgetCfgs(mm) IN mm \o [i \in 1..Len(cs) |-> Wrap(x, cs[i])]
-NextPhase(mm, ph) == IF AllDone(mm) THEN 2 ELSE ph
+NextPhase(mm, ph) == IF ph = 0 THEN 1 ELSE IF AllDone(mm) THEN 2 ELSE ph
 
 Final == phase = 2 /\ AllDone(ms)
 
-Init == /\ u \in Universe
-        /\ ms = [i \in 1..Len(Configs1) |-> Wrap(u, Configs1[i])]
-        /\ phase = 1
+Init == /\ \E i \in 1..Len(UniverseSeq) : u = UniverseSeq[i]
+        /\ ms = << >>              \* the runs are created by the first step (initial states are computed by one thread)
+        /\ phase = 0
 
 Next == /\ ~Final
         /\ ms' = NextMs(ms, phase, u)
@@ -171,9 +172,16 @@ Expect(w) ==
                                atoms |-> s.al.atoms, pairs |-> s.al.pairs, heap |-> s.al.heap]
         [] s.status = "err" -> [st |-> "err", kind |-> s.kind]
         [] OTHER -> [st |-> "abstain"]
-RunRec(w) == [name |-> w.c.name, flags |-> w.c.flags, dialect |-> w.c.dialect, budget |-> w.c.budget, exp |-> Expect(w),
-              steps |-> w.m.steps, guards |-> w.exits, exempt |-> w.m.exempt, beyond |-> w.m.beyond]
+\* the configuration of a run is identified by its name (flags and dialect are printed once, in the CONFIGS line)
+RunRec(w) == [n |-> w.c.name, b |-> w.c.budget, x |-> Expect(w),
+              s |-> w.m.steps, g |-> w.exits, e |-> w.m.exempt, y |-> w.m.beyond]
 EmitCases == Final => (IF Emit THEN PrintT(<< "CASES", ToJson([prog |-> u.p, env |-> u.e, cls |-> u.k,
                                                                 runs |-> [i \in 1..Len(ms) |-> RunRec(ms[i])]]) >>)
                        ELSE TRUE)
+
+ConfigTable == [i \in 1..Len(Configs1) |-> [name |-> Configs1[i].name, dialect |-> Configs1[i].dialect, flags |-> Configs1[i].flags]]
+                 \o << [name |-> "bb", dialect |-> "chia", flags |-> << >>],
+                       [name |-> "nb", dialect |-> "chia", flags |-> << "NEW_COST_MODEL" >>],
+                       [name |-> "bp", dialect |-> "chia", flags |-> << >>] >>
+ASSUME PrintT(<< "CONFIGS", ToJson(ConfigTable) >>)
 =============================================================================
